@@ -5,17 +5,32 @@ conversion_any_submitted_fault_raises, no_fault_returns, worker_fault_raises /
 worker_runs_bounded / worker_never_blocks (every interleaving), dict_fault_raises,
 policy_rejects_iff, storage_need.
 Correspondence = fault enumeration on the real code: fault kind {repeated cue
-under the default policy, malformed line (1 / 4 columns), truncated gzip, cue or
-outcome without vector, per-file byte budget for the chunk files swept over
-every chunk-size boundary (RLIMIT_FSIZE set inside the conversion workers),
-unusable hyper-parameter type} x position of the faulty event (first, middle,
-last; so in the first / an inner / the last chunk) x learner {dict_ndl, ndl
-threading, ndl openmp, wh real-real / binary-real / real-binary (openmp), wh
-numpy, dict_wh} x n_jobs x chunk sizes; every call in a killable worker with a
-deadline. Predicted by the stage table below + the Lean driver (storage:
-encodedSize of every chunk vs. the budget): `Raised` — never `Returned`, never
-`Timeout`. The same task without the fault must return (non-vacuity).
+under the default policy, malformed line (1 / 4 columns, an empty line in the
+middle or at the end of the file, a third column that is not a decimal count:
+a word, a float, empty), truncated gzip, cue or outcome without vector, per-file
+byte budget for the chunk files swept over every chunk-size boundary
+(RLIMIT_FSIZE set inside the conversion workers), unusable hyper-parameter type
+(alpha / beta1 / lambda / eta a str, None, list; `betas` a scalar, a 3-tuple,
+(0.5, None), (0.5, '0.25'), (None, 0.25))} x position of the faulty event
+(first, middle, last; so in the first / an inner / the last chunk) x learner
+{dict_ndl, ndl threading, ndl openmp, wh real-real / binary-real / real-binary
+(openmp), wh numpy, dict_wh} x n_jobs x chunk sizes — the configuration
+(n_jobs, n_outcomes_per_job, events_per_temporary_file incl. the single-chunk
+value) is drawn anew for EVERY task; verbose=True for a quarter of the tasks;
+every call in a killable worker with a deadline. Predicted by the stage table
+below + the Lean driver (storage: encodedSize of every chunk vs. the budget):
+`Raised` — never `Returned`, never `Timeout`. The same task without the fault
+must return (non-vacuity).
+Not faults (so not generated as such): a value the learner never needs
+(dict_ndl reads beta2 only when an event lacks an outcome seen before: the
+expectation is computed per task by `beta2_needed`), eta=[0.5] for the numpy
+method (DESIGN §11), and a NEGATIVE frequency `a\tx\t-1`, which the reader
+(int(), range()) accepts as zero repetitions in every learner: the format does
+not define it, so only "terminates, leaves nothing behind" is required there
+(stream line_outside_format).
 """
+import json
+
 import learners as L  # noqa
 from common import rng
 
@@ -34,6 +49,7 @@ EXPECT = {
     'no_vector': lambda l: 'Raised:Key' if l == 'dict_wh' else 'Raised:Value',
     'storage': lambda l: 'Raised:IO',
     'bad_param': lambda l: 'Raised:Type',
+    'bad_betas': lambda l: 'Raised:Type',             # (a 3-tuple fails to unpack with ValueError: counted as class difference)
     'gen_raises': lambda l: 'Raised:Other',           # the generator's own RuntimeError
     'gen_bad_event': lambda l: 'Raised:Value',        # events_to_file / the unpacking of the event
 }
@@ -54,6 +70,113 @@ def positions(n):
     return sorted({0, n // 2, n - 1})
 
 
+OLD_SHAPES = ['one_col', 'four_cols']
+NEW_SHAPES = ['empty', 'freq_word', 'freq_float', 'freq_empty']       # see impl_fault._BAD_LINES
+BETAS = ['pair_none', 'scalar', 'triple', 'beta2_str', 'none_pair']   # see impl_fault._BETAS
+PER_FILE = [2, 3, 10000000]                                           # 10000000: the whole file is one chunk
+
+
+def configuration(r, learner):
+    """(n_jobs, n_outcomes_per_job, events_per_temporary_file) — drawn per task"""
+    return dict(learner=learner, n_jobs=r.choice([1, 2, 4]), per_job=r.choice([1, 2, 10]),
+                per_file=r.choice(PER_FILE) if learner in PATH_CONV else 10000000)
+
+
+def beta2_needed(events):
+    """dict_ndl multiplies by beta2 only for an outcome seen before that the current event lacks"""
+    seen = set()
+    for _, outs in events:
+        if seen - set(outs):
+            return True
+        seen |= set(outs)
+    return False
+
+
+def judge(t, want, tag, res, count=None):
+    """the property predicate on one observed call: a description of the violation, or None"""
+    got = res.get('outcome', res.get('err', '?'))
+    prob = None
+    if want == 'Any':
+        # not defined by the format: either outcome, but in bounded time (and nothing left behind, below)
+        if got in ('Timeout', 'WorkerDied', 'HarnessError'):
+            prob = 'a run on a file with %s did not finish: %s' % (t['fault'], got)
+    elif want == 'Returned':
+        if got != 'Returned':
+            prob = 'no fault manifests (%s), but the call did not return: %s %s' % (tag, got, res.get('msg', ''))
+    else:
+        if got == 'Returned':
+            prob = 'a faulty run (%s) RETURNED weights%s' % (t['fault'], ' (all zero)' if res.get('all_zero') else '')
+        elif got in ('Timeout', 'WorkerDied'):
+            prob = 'a faulty run (%s) blocked: %s after %ss' % (t['fault'], got, res.get('seconds', res.get('_seconds')))
+        elif got == 'HarnessError':
+            prob = 'harness: the fault could not be set up: %s' % res.get('msg')
+        elif got != want and count is not None:
+            count('class_differs_from_stage_table:%s:%s!=%s' % (tag, got, want))
+    lo = res.get('leftovers')
+    if prob is None and lo and (lo['systmp'] or lo['giventmp']):
+        prob = 'temporary entries left behind after %s: %r' % (got, lo)
+    if prob is None and res.get('file_unchanged') is False:
+        prob = 'input event file modified'
+    return prob
+
+
+def smaller(t, tag):
+    """smaller variants of a fault task that carry the same fault (the expectation stays what it was)"""
+    f = t['fault'] or {}
+    es = t['events']
+    pos = f.get('pos')
+    out = []
+    if tag != 'storage':         # (the storage expectation is a function of the chunk sizes)
+        for i in range(len(es)):
+            if len(es) <= 1 or (f.get('kind') in ('dup_cue', 'gen_raises', 'gen_bad_event') and i == pos):
+                continue
+            es2 = es[:i] + es[i + 1:]
+            f2 = dict(f)
+            if pos is not None and i < pos:
+                f2['pos'] = pos - 1
+            if f.get('kind') == 'no_vector' and not any(f['name'] in (c if f['side'] == 'cue' else o) for c, o in es2):
+                continue
+            if tag == 'bad_betas' and t['learner'] == 'dict_ndl' and f['value'] in ('pair_none', 'beta2_str') and not beta2_needed(es2):
+                continue
+            if tag == 'betas_value_never_read' and beta2_needed(es2):
+                continue
+            out.append(dict(t, events=es2, fault=f2 if t['fault'] else None))
+    if t.get('verbose'):
+        out.append({k: v for k, v in t.items() if k != 'verbose'})
+    if tag != 'storage':
+        for k, v in (('n_jobs', 1), ('per_job', 10), ('per_file', 10000000)):
+            if t.get(k) not in (None, v):
+                out.append(dict(t, **{k: v}))
+    return out
+
+
+def snippet(t):
+    return ("import json, os, sys\n"
+            "sys.path.insert(0, '/verif/harness')   # impl_fault builds the faulty file / arguments; pyndl from PYTHONPATH\n"
+            "os.makedirs('work', exist_ok=True); os.chdir('work')\n"
+            "import impl_fault\n"
+            "print(impl_fault.op_fault_run(json.loads(%r)))   # one call of %s under the fault %r\n"
+            % (json.dumps(t), t['learner'], t.get('fault')))
+
+
+def shrink(pool, t, tag, fails, rounds=8):
+    """greedy: the first smaller variant that still violates, per round one batch through the pool; a
+    variant counts only if it fails (a hang must stay a hang: variants run with a 15 s deadline, an
+    unhindered call takes about 1 s)"""
+    steps = 0
+    for _ in range(rounds):
+        cands = smaller(t, tag)
+        if not cands:
+            break
+        res = pool.map([dict(c, _timeout=15) for c in cands])
+        hit = next((c for c, x in zip(cands, res) if fails(c, x)), None)
+        if hit is None:
+            break
+        t = hit
+        steps += 1
+    return t, steps
+
+
 def run(rep, pool, driver, tier):
     r = rng('C05')
     quick = tier == 'quick'
@@ -63,21 +186,33 @@ def run(rep, pool, driver, tier):
         for learner in ALL:
             single = learner in SINGLE
             n = r.choice([5, 6, 7])
-            per = r.choice([2, 3]) if learner in PATH_CONV else 10000000
-            cfg = dict(learner=learner, n_jobs=r.choice([1, 2, 4]), per_job=r.choice([1, 2, 10]), per_file=per)
             es = base_events(r, n, single)
-            tasks.append((dict(cfg, op='fault_run', events=es, fault=None), None, 'no_fault'))
+
+            def cfg():
+                # audit C05-1/C05-4: every task has a configuration of its own (F2 depended on the worker count;
+                # with one chunk the failing job is also the one that ends the submit loop)
+                return configuration(r, learner)
+            # without a fault: with one job and with several, in several chunks and in one
+            tasks.append((dict(cfg(), op='fault_run', events=es, fault=None), None, 'no_fault'))
+            tasks.append((dict(cfg(), op='fault_run', events=es, n_jobs=r.choice([1, 4]), fault=None,
+                               **({'per_file': 10000000} if r.random() < 0.5 else {})), None, 'no_fault'))
             for pos in (positions(n) if not quick else r.sample(positions(n), 2)):
                 # repeated cue under the default policy
                 es2 = [list(map(list, e)) for e in es]
                 es2[pos][0] = es2[pos][0] + [es2[pos][0][0]]
-                tasks.append((dict(cfg, op='fault_run', events=es2, fault={'kind': 'dup_cue', 'pos': pos}), 'dup_cue', 'dup_cue'))
-                for shape in (['one_col', 'four_cols'] if not quick else [r.choice(['one_col', 'four_cols'])]):
-                    tasks.append((dict(cfg, op='fault_run', events=es, fault={'kind': 'bad_line', 'pos': pos, 'shape': shape}),
+                tasks.append((dict(cfg(), op='fault_run', events=es2, fault={'kind': 'dup_cue', 'pos': pos}), 'dup_cue', 'dup_cue'))
+                for shape in (OLD_SHAPES + NEW_SHAPES if not quick else [r.choice(OLD_SHAPES), r.choice(NEW_SHAPES)]):
+                    tasks.append((dict(cfg(), op='fault_run', events=es, fault={'kind': 'bad_line', 'pos': pos, 'shape': shape}),
                                   'bad_line', 'bad_line'))
-            tasks.append((dict(cfg, op='fault_run', events=es, n_jobs=r.choice([2, 4, 8]), fault={'kind': 'all_bad'}), 'bad_line', 'all_lines_bad'))
+            # an empty line behind the last event (the end of the file)
+            tasks.append((dict(cfg(), op='fault_run', events=es, fault={'kind': 'bad_line', 'pos': n, 'shape': 'empty'}),
+                          'bad_line', 'bad_line'))
+            # a negative frequency: accepted by the reader as zero repetitions, not defined by the format
+            tasks.append((dict(cfg(), op='fault_run', events=es, fault={'kind': 'bad_line', 'pos': r.choice(positions(n) + [n]),
+                                                                         'shape': 'freq_negative'}), 'any', 'line_outside_format'))
+            tasks.append((dict(cfg(), op='fault_run', events=es, n_jobs=r.choice([2, 4, 8]), fault={'kind': 'all_bad'}), 'bad_line', 'all_lines_bad'))
             for frac_ in ([0.3, 0.6, 0.9] if not quick else [r.choice([0.3, 0.6, 0.9])]):
-                tasks.append((dict(cfg, op='fault_run', events=es * 3, fault={'kind': 'truncated_gz', 'fraction': frac_}),
+                tasks.append((dict(cfg(), op='fault_run', events=es * 3, fault={'kind': 'truncated_gz', 'fraction': frac_}),
                               'truncated_gz', 'truncated_gz'))
             if learner.startswith('wh') or learner == 'dict_wh':
                 sides = []
@@ -88,7 +223,7 @@ def run(rep, pool, driver, tier):
                 for side in sides:
                     for pos in (positions(n) if not quick else [r.choice(positions(n))]):
                         name = es[pos][0][0] if side == 'cue' else es[pos][1][0]
-                        tasks.append((dict(cfg, op='fault_run', events=es, fault={'kind': 'no_vector', 'side': side, 'name': name}),
+                        tasks.append((dict(cfg(), op='fault_run', events=es, fault={'kind': 'no_vector', 'side': side, 'name': name}),
                                       'no_vector', 'no_vector'))
             whichs = {'dict_ndl': ['alpha', 'beta', 'lambda'], 'ndl_threading': ['alpha', 'beta', 'lambda'],
                       'ndl_openmp': ['alpha', 'beta', 'lambda']}.get(learner, ['eta'])
@@ -98,8 +233,15 @@ def run(rep, pool, driver, tier):
                         # eta=[0.5] is a usable value for the numpy method (broadcasting: the run is carried
                         # out correctly with eta = 0.5), not a fault — see DESIGN §11
                         continue
-                    tasks.append((dict(cfg, op='fault_run', events=es, fault={'kind': 'bad_param', 'which': which, 'value': value}),
+                    tasks.append((dict(cfg(), op='fault_run', events=es, fault={'kind': 'bad_param', 'which': which, 'value': value}),
                                   'bad_param', 'bad_param'))
+            if learner in ('dict_ndl', 'ndl_threading', 'ndl_openmp'):
+                # the `betas` argument as a whole (audit C05-3).  dict_ndl reads beta2 only when it needs it:
+                # if these events never need it, (0.5, None) and (0.5, '0.25') are usable and the run must return
+                for value in BETAS:
+                    unused = learner == 'dict_ndl' and value in ('pair_none', 'beta2_str') and not beta2_needed(es)
+                    tasks.append((dict(cfg(), op='fault_run', events=es, fault={'kind': 'bad_param', 'which': 'betas', 'value': value}),
+                                  None if unused else 'bad_betas', 'betas_value_never_read' if unused else 'bad_betas'))
     # the events generator itself fails while it is consumed (dict_ndl) or spooled (ndl.ndl)
     for rnd in range(1 if quick else 4):
         for learner in ('dict_ndl', 'ndl_threading', 'ndl_openmp'):
@@ -107,7 +249,8 @@ def run(rep, pool, driver, tier):
             es = base_events(r, n, False)
             for kind in ('gen_raises', 'gen_bad_event'):
                 for pos in ([r.choice([0, n - 1])] if quick else [0, n // 2, n - 1]):
-                    tasks.append((dict(op='fault_run', learner=learner, n_jobs=2, per_job=10, per_file=3, form='generator',
+                    tasks.append((dict(op='fault_run', learner=learner, n_jobs=r.choice([1, 2, 4]), per_job=r.choice([1, 2, 10]),
+                                       per_file=r.choice(PER_FILE), form='generator',
                                        events=es, fault={'kind': kind, 'pos': pos}), kind, kind))
     # storage budget sweep over every chunk-size boundary
     storage = []
@@ -131,9 +274,16 @@ def run(rep, pool, driver, tier):
                                  fault={'kind': 'storage', 'budget': b}))
             st_reqs.append({'op': 'storage_fault', 'events': ids, 'per': per, 'budget': b})
     st_models = driver.ask(st_reqs)
+    # X1: verbose=True for a quarter of the calls (a stream of its own: the tasks above are what they were);
+    # the expectation does not know the flag
+    rv = rng('C05/verbose')
+    for t in [t for t, _, _ in tasks] + st_tasks:
+        if rv.random() < 0.25:
+            t['verbose'] = True
     impls = pool.map([t for t, _, _ in tasks] + st_tasks)
-    all_cases = [(t, (EXPECT[e](t['learner']) if e else 'Returned'), tag) for t, e, tag in tasks] + \
+    all_cases = [(t, ('Any' if e == 'any' else EXPECT[e](t['learner']) if e else 'Returned'), tag) for t, e, tag in tasks] + \
                 [(t, 'Raised:IO' if m['raises'] else 'Returned', 'storage') for t, m in zip(st_tasks, st_models)]
+    n_shrunk = 0
     for (t, want, tag), res in zip(all_cases, impls):
         got = res.get('outcome', res.get('err', '?'))
         rep.case({'learner': t['learner'], 'fault': t['fault'], 'events': t['events'], 'cfg': [t['n_jobs'], t['per_file']]},
@@ -141,25 +291,31 @@ def run(rep, pool, driver, tier):
         rep.count('learner:' + t['learner'])
         rep.count('fault:' + tag)
         rep.count('observed:' + got)
-        prob = None
-        if want == 'Returned':
-            if got != 'Returned':
-                prob = 'no fault manifests (%s), but the call did not return: %s %s' % (tag, got, res.get('msg', ''))
-        else:
-            if got == 'Returned':
-                prob = 'a faulty run (%s) RETURNED weights%s' % (t['fault'], ' (all zero)' if res.get('all_zero') else '')
-            elif got in ('Timeout', 'WorkerDied'):
-                prob = 'a faulty run (%s) blocked: %s after %ss' % (t['fault'], got, res.get('seconds', res.get('_seconds')))
-            elif got != want:
-                rep.count('class_differs_from_stage_table:%s:%s!=%s' % (tag, got, want))
-        lo = res.get('leftovers')
-        if prob is None and lo and (lo['systmp'] or lo['giventmp']):
-            prob = 'temporary entries left behind after %s: %r' % (got, lo)
-        if prob is None and res.get('file_unchanged') is False:
-            prob = 'input event file modified'
+        rep.count('n_jobs:%d' % t['n_jobs'])
+        rep.count('per_job:%d' % t['per_job'])
+        if t['learner'] in PATH_CONV:
+            rep.count('per_file:%s' % ('single_chunk' if t['per_file'] >= 10000000 else t['per_file']))
+        rep.count('verbose:%s' % bool(t.get('verbose')))
+        f = t['fault'] or {}
+        if f.get('kind') == 'bad_line':
+            rep.count('bad_line_shape:%s@%s' % (f['shape'], 'end' if f['pos'] >= len(t['events']) else 'first' if f['pos'] == 0 else 'inner'))
+        if f.get('kind') == 'bad_param':
+            rep.count('bad_param:%s=%s' % (f['which'], f['value']))
+        prob = judge(t, want, tag, res, rep.count)
         if prob:
+            steps = 0
+            if n_shrunk < 3:
+                # the first three violations are shrunk (events dropped, configuration simplified)
+                n_shrunk += 1
+                n_before = len(t['events'])
+                t, steps = shrink(pool, t, tag, lambda c, x: judge(c, want, tag, x) is not None,
+                                  rounds=3 if got in ('Timeout', 'WorkerDied') else 8)   # a hanging variant costs 15 s
+                if steps:
+                    res = pool.map([t])[0]
+                    prob = judge(t, want, tag, res) or prob
             rep.violation({'what': prob, 'input': t, 'observed': {k: res.get(k) for k in ('outcome', 'err', 'cls', 'msg', 'seconds', 'leftovers')},
-                           'expected': want, 'theorem_or_stream': 'C05 fault enumeration (%s) on %s' % (tag, t['learner'])})
+                           'expected': want, 'theorem_or_stream': 'C05 fault enumeration (%s) on %s' % (tag, t['learner']),
+                           'python': snippet(t), 'shrink_steps': steps})
         elif tag != 'no_fault' and want != 'Returned':
             rep.sample({'learner': t['learner'], 'fault': t['fault'], 'outcome': got, 'cls': res.get('cls'), 'seconds': res.get('seconds')}, limit=8)
     rep.extra['max_seconds_per_call'] = max(x.get('seconds', x.get('_seconds', 0)) for x in impls)
